@@ -47,7 +47,10 @@ def run(ctx):
     if len(progs) < 100:
         raise core.MachineryError('trap family not emitted')
     if ctx.quick():
-        progs = ctx.rng.sample(progs, 48)
+        # the programs that remove and re-install a trap line (ON KEY(1) GOSUB 0) are always run; a sample of the others
+        special = [q for q in progs if any(st.get('op') == 'ONTRAP' and st.get('n') == 0 for ln in q['lines'] for st in ln['s'])]
+        rest = [q for q in progs if q not in special]
+        progs = special + ctx.rng.sample(rest, 44)
     runner = G.Runner()
     events, owner, cases = [], [], []
     ndisp = 0
